@@ -538,3 +538,59 @@ Example over_capacity_history_repaired :
   obs_of (run true (init (K:=K) [] 0%Q) [@APut K 0; @APut K 1; @APut K 2])
   = Some ([0; 1], [2%nat], [], [(0%nat, None); (1%nat, None)]).
 Proof. vm_compute. reflexivity. Qed.
+
+(* ---------------------------------------------------------------------------------------------- *)
+(* items that carry the id of their put next to their value: (value, put-id).  Equal values with distinct
+   put-ids are distinct items for the model (Leibniz equality); Python's == sees the value only. *)
+Section PutIds.
+  Variable V T : Type.
+  Variable cap : option Q.
+  Let KF := FilterStore (V * T) cap.
+  Let idA := fun x : V * T => x.
+
+  (* if every accepted item has its own put-id, then no put-id is handed out twice or both handed out
+     and still held, and every accepted put-id is held or was handed out *)
+  Theorem filter_put_ids_exactly_once fixed (acts : list (action KF)) t0 s :
+    run fixed (init (K:=KF) [] t0) acts = Some s ->
+    NoDup (map snd (accepted (K:=KF) idA (log s))) ->
+    NoDup (map snd (content s ++ delivered (K:=KF) idA (log s))) /\
+    forall t, In t (map snd (accepted (K:=KF) idA (log s))) <->
+              In t (map snd (content s ++ delivered (K:=KF) idA (log s))).
+  Proof.
+    intros Hr Hn. pose proof (filter_delivered_once (V * T) cap fixed acts t0 s Hr) as Hp.
+    apply (Permutation_map snd) in Hp. split.
+    - eapply Permutation_NoDup; eauto.
+    - intros t. split; intros H; [eapply Permutation_in; eauto|eapply Permutation_in; [apply Permutation_sym|]; eauto].
+  Qed.
+End PutIds.
+
+(* FilterStore._do_get as found (list.remove(item): first EQUAL element): items (1, id 0) and (1, id 1),
+   a filter that accepts only put-id 1: the getter receives (1, 1), which is STILL in the store, and
+   (1, 0) is gone -- one accepted item lost, another handed out and kept *)
+Definition veq_value (a b : Z * nat) : bool := Z.eqb (fst a) (fst b).
+Definition KFU : kind := FilterStore_unfixed (Z * nat) veq_value None.
+Definition equal_items_history : list (action KFU) :=
+  [@APut KFU (1, 0%nat); @APut KFU (1, 1%nat); @AGet KFU (fun x => Nat.eqb (snd x) 1)].
+
+Lemma filter_delivered_once_refuted_unfixed :
+  exists (acts : list (action KFU)) (s : state KFU),
+    run true (init (K:=KFU) [] 0%Q) acts = Some s /\
+    ~ Permutation (accepted (K:=KFU) (fun x => x) (log s))
+                  (content s ++ delivered (K:=KFU) (fun x => x) (log s)) /\
+    exists x, In x (content s) /\ In x (delivered (K:=KFU) (fun x => x) (log s)).
+Proof.
+  exists equal_items_history.
+  destruct (run true (init (K:=KFU) [] 0%Q) equal_items_history) as [s|] eqn:E; [|vm_compute in E; discriminate].
+  exists s. split; [reflexivity|]. vm_compute in E. injection E as <-. cbn. split.
+  - intros Hp. assert (Hin : In (1, 0%nat) [(1, 1%nat); (1, 1%nat)]).
+    { eapply Permutation_in; [exact Hp|left; reflexivity]. }
+    cbn in Hin. destruct Hin as [Hc|[Hc|[]]]; discriminate.
+  - exists (1, 1%nat). split; left; reflexivity.
+Qed.
+
+Example equal_items_history_repaired :
+  let K := FilterStore (Z * nat) None in
+  obs_of (run true (init (K:=K) [] 0%Q)
+    [@APut K (1, 0%nat); @APut K (1, 1%nat); @AGet K (fun x => Nat.eqb (snd x) 1)])
+  = Some ([(1, 0%nat)], [], [], [(0%nat, None); (1%nat, None); (2%nat, Some (1, 1%nat))]).
+Proof. vm_compute. reflexivity. Qed.
